@@ -845,6 +845,40 @@ func genC11Hist(tier string, rng *Rng) []Case {
 		}
 		out = append(out, mkCacheCase(rules, g.ops, nil))
 	}
+	// a resource whose content depends on the request's Origin; it says so (Vary: Origin) from the start, or only from a
+	// refresh on: once it says so, every Origin must get its own
+	for i := 0; i < n/3+2; i++ {
+		g := &histGen{rng: rng}
+		mk := func(vary bool) Behaviour {
+			h := []KV{{"Content-Type", "text/plain"}, {"Cache-Control", "max-age=10"}}
+			if vary {
+				h = append(h, KV{"Vary", "Origin"})
+			}
+			return Behaviour{Status: 200, Hdrs: h, Body: echoOriginBody}
+		}
+		oa, ob := KV{"Origin", "https://a.example"}, KV{"Origin", "https://b.example"}
+		if rng.Bool() {
+			g.script(mk(false))
+			g.req("GET", "/c/x", oa)
+			g.req("GET", "/c/x", ob)
+			g.adv(100)
+		}
+		g.script(mk(true))
+		for k := 4 + rng.Intn(4); k > 0; k-- {
+			switch rng.Intn(5) {
+			case 0:
+				g.req("GET", "/c/x")
+			case 1, 2:
+				g.req("GET", "/c/x", oa)
+			default:
+				g.req("GET", "/c/x", ob)
+			}
+			if rng.Chance(20, 100) {
+				g.adv(100)
+			}
+		}
+		out = append(out, mkCacheCase([]Rule{cacheRule()}, g.ops, nil))
+	}
 	for i := 0; i < n; i++ {
 		g := &histGen{rng: rng}
 		switch rng.Intn(3) {
